@@ -12,7 +12,7 @@ use serde::{Deserialize, Serialize};
 pub fn def() -> PropDef {
     PropDef {
         id: "C03",
-        rule: "generated primitive calls (fft/ifft: buffer of n<=~1100 shards x 1..4 blocks, pos with guard shards on both sides, size=2^a, truncated_size in {0,1,size,2^b+-1,random}, skew_delta in {0, pos+size, aligned multiples up to the table end, unaligned}; mul: all log_m classes; eval_poly: 0/1 mark vectors and vectors of arbitrary elements x covering truncations) executed on every engine, a third of them on buffers at non-aligned addresses ([u8; 64] has alignment 1), (Naive, NoSimd, Ssse3, Avx2, Default, Neon source on emulated intrinsics) and compared on the contract-defined outputs only; guard shards and trailing blocks must be unchanged; plus whole encode/decode rounds on every engine. non-trivial: truncated<size, or >1 block, or skew index in the top half of the table, or odd number of layers; distinct by full case",
+        rule: "generated primitive calls (fft/ifft: buffer of n<=~1100 shards x 1..4 blocks (transforms of up to 32 shards: up to 200 blocks, i.e. 12.5 KiB per shard), pos with guard shards on both sides, size=2^a, truncated_size in {0,1,size,2^b+-1,random}, skew_delta in {0, pos+size, aligned multiples up to the table end, unaligned}; mul: all log_m classes; eval_poly: 0/1 mark vectors and vectors of arbitrary elements x covering truncations) executed on every engine, a third of them on buffers at non-aligned addresses ([u8; 64] has alignment 1), (Naive, NoSimd, Ssse3, Avx2, Default, Neon source on emulated intrinsics) and compared on the contract-defined outputs only; guard shards and trailing blocks must be unchanged; plus whole encode/decode rounds on every engine. non-trivial: truncated<size, or >1 block, or skew index in the top half of the table, or odd number of layers; distinct by full case",
         assumptions: &[
             "fft is compared on positions pos..pos+truncated_size for any input; ifft on all size positions only when the input beyond truncated_size is zero (otherwise only confinement and absence of panic)",
             "Neon kernels run on seven emulated intrinsics (rsv-neon/src/neon_emu.rs)",
@@ -81,7 +81,8 @@ pub fn xform_strategy(_t: Tier) -> BoxedStrategy<XformCase> {
         prop_oneof![150 => 0u8..=7, 50 => 8u8..=10, 6 => 11u8..=13, 1 => 14u8..=16],
         prop_oneof![3 => Just(0usize), 3 => 1usize..=9, 1 => 10usize..=70],
         0usize..=3,
-        prop_oneof![5 => Just(1usize), 2 => Just(2usize), 1 => 3usize..=4],
+        // blocks per shard: mostly 1..4; for small transforms sometimes 5..200 (shards of up to 12.5 KiB: strip-wise kernels)
+        prop_oneof![30 => Just(1usize), 12 => Just(2usize), 6 => 3usize..=4, 1 => 5usize..=64, 1 => 65usize..=200],
         (0u8..6, any::<u16>()),
         (0u8..6, any::<u16>()),
         any::<bool>(),
@@ -118,7 +119,7 @@ pub fn xform_strategy(_t: Tier) -> BoxedStrategy<XformCase> {
                 }
                 _ => gen::idx_map(sraw, max_delta),
             };
-            let (pos, blocks) = if size_log >= 14 { (pos.min(8), 1) } else { (pos, blocks) };
+            let (pos, blocks) = if size_log >= 14 { (pos.min(8), 1) } else if size_log >= 6 { (pos, blocks.min(4)) } else { (pos, blocks) };
             let skew_delta = skew_delta.min(65536 - size);
             XformCase { which, size_log, pos, after, blocks, trunc, skew_delta, zero_tail, seed }
         })
